@@ -348,8 +348,30 @@ func (g *egen) quant(depth, qdepth int) xgen.Expr {
 	}
 	q := &xgen.Quant{All: g.r.Intn(2) == 0, Sel: sel, Mode: xgen.BindMode(g.r.Intn(4))}
 	n1, n2 := g.names[g.r.Intn(len(g.names))], g.names[g.r.Intn(len(g.names))]
+	if len(g.roots) > 1 && g.r.Intn(3) == 0 {
+		// shadow an enclosing binding
+		n1 = g.roots[1+g.r.Intn(len(g.roots)-1)].prefix[0]
+		if g.r.Intn(2) == 0 {
+			n2 = n1
+			n1 = g.names[g.r.Intn(len(g.names))]
+		}
+	}
+	if len(parts) > 0 && g.r.Intn(8) == 0 {
+		// a binding named like the root of the collection's own selector
+		if g.r.Intn(2) == 0 {
+			n1 = parts[0]
+		} else {
+			n2 = parts[0]
+		}
+	}
 	if n1 == n2 && g.r.Intn(10) > 0 {
 		n2 = n2 + "2"
+	}
+	if !xgen.IsSafeIdent(n1) {
+		n1 = "x"
+	}
+	if !xgen.IsSafeIdent(n2) {
+		n2 = "v"
 	}
 	saved := g.roots
 	var elem *univ.Node
